@@ -459,8 +459,16 @@ func c01Args(p *chk.Prog, r *chk.Report) {
 		good := len(returnsOf(g)) > 0
 		for _, rt := range returnsOf(g) {
 			res := retResults(rt)
-			if len(res) != 1 || sk.MatchWith("S.Annotations[K]", res[0], chk.H("S", isParamIdx(sk, 0)),
-				chk.H("K", constStr(sk, "metallb.io/allow-shared-ip", "metallb.universe.tf/allow-shared-ip"))) == nil {
+			if len(res) != 1 {
+				good = false
+				continue
+			}
+			direct := sk.MatchWith("S.Annotations[K]", res[0], chk.H("S", isParamIdx(sk, 0)),
+				chk.H("K", constStr(sk, "metallb.io/allow-shared-ip", "metallb.universe.tf/allow-shared-ip"))) != nil
+			// or through the package's stable-then-deprecated lookup helper
+			viaHelper := sk.MatchWith("valueForAnnotation(S.Annotations, A, B)", res[0], chk.H("S", isParamIdx(sk, 0)),
+				chk.H("A", constStr(sk, "metallb.io/allow-shared-ip")), chk.H("B", constStr(sk, "metallb.universe.tf/allow-shared-ip"))) != nil
+			if !direct && !viaHelper {
 				good = false
 			}
 		}
